@@ -34,7 +34,7 @@ EXPLANATION = ("body VC of AbstractPart.structure for every enzyme geometry and 
 
 def obligations(ctx):
     from props._shared import typing_state_census
-    return list(ctx.verify(FUNCTIONS) + literal(ctx) + lemmas(ctx)) + [typing_state_census(ctx, 'C05')]
+    return list(ctx.verify(FUNCTIONS) + ctx.part(literal) + ctx.part(lemmas)) + ctx.part(lambda c_: [typing_state_census(c_, 'C05')], 'typing-state census')
 
 
 def iupac_match(sig, text):
